@@ -489,6 +489,80 @@ def client_script_case(ctx, script: list, prefixes: tuple[str, str] = ("in", "ou
                 return
 
 
+def multi_loop_client_case(ctx, first_session: str) -> None:
+    """One MQTTClient object used under a second event loop (a supervisor that calls asyncio.run(main(transport)) again):
+    the first run connects, publishes, reads what has already arrived (never waiting) and leaves - cleanly or not at all;
+    under the new loop every broker message is read back as its line, connect / disconnect complete."""
+    from aiomysensors.transport.mqtt import MQTTClient
+
+    case = {"kind": "multi-loop-client", "first_session": first_session}
+    holder: dict = {}
+
+    async def first() -> dict:
+        transport = holder["transport"] = MQTTClient("broker.invalid", 1883, in_prefix="in", out_prefix="out")
+        await transport.connect()
+        client = FakeClient.instances[-1]
+        out: dict = {"reads": []}
+        await transport.write("1;0;1;0;2;first run\n")
+        if first_session != "publish-only":
+            client.deliver("in/1/0/1/0/2", b"r1")
+            for _ in range(20):
+                await asyncio.sleep(0)
+            out["reads"].append(await transport.read())  # already queued: the read does not wait
+        if first_session != "abandoned":
+            await transport.disconnect()
+        return out
+
+    async def second() -> dict:
+        transport = holder["transport"]
+        out: dict = {"reads": []}
+        await transport.connect()
+        client = FakeClient.instances[-1]
+        pending = asyncio.ensure_future(transport.read())  # a read that waits, under this loop
+        await asyncio.sleep(0)
+        client.deliver("in/2/0/1/0/2", b"s1")
+        client.deliver("in/2/0/1/0/3", b"s2")
+        out["reads"].append(await pending)
+        out["reads"].append(await transport.read())
+        await transport.write("2;0;1;0;2;second run\n")
+        out["published"] = list(client.published) if hasattr(client, "published") else None
+        await transport.disconnect()
+        return out
+
+    with install() as seam:
+        if not seam:
+            ctx.skip("fake-client", "no aiomqtt client seam in aiomysensors.transport.mqtt")
+            return
+        result1, _loop1 = run_virtual(first)
+        result2, _loop2 = run_virtual(second) if isinstance(result1, dict) else (None, None)
+    ctx.case(("multi-loop-client", first_session), nontrivial=True, sample=case)
+    ctx.clause("client-under-second-loop")
+    if not isinstance(result1, dict):
+        from ..harness import scenario_exception
+
+        if isinstance(result1, LogicalDeadlock):
+            ctx.violation("mqtt-deaf", f"first run ({first_session}): logical deadlock", case)
+        else:
+            scenario_exception(ctx, result1, case, "multi-loop-client first run")
+        return
+    if first_session != "publish-only" and [r.rstrip("\n") for r in result1["reads"]] != ["1;0;1;0;2;r1"]:
+        ctx.violation("delivery-order-or-count", f"first run read {result1['reads']}", case)
+    if isinstance(result2, LogicalDeadlock):
+        ctx.violation("mqtt-deaf", f"second run under a new event loop (first run: {first_session}): a read can never complete "
+                                   f"although the broker delivered (logical deadlock)", case)
+    elif isinstance(result2, BaseException):
+        from ..harness import is_library_error
+
+        key = "second-loop-raised-" + type(result2).__name__
+        if is_library_error(result2) and first_session == "abandoned":
+            ctx.obs("multi-loop-client:abandoned-first-run-refused:" + type(result2).__name__)
+        else:
+            ctx.violation(key, f"second run under a new event loop (first run: {first_session}) raised "
+                               f"{type(result2).__name__}: {result2!s:.100}", case)
+    elif [r.rstrip("\n") for r in result2["reads"]] != ["2;0;1;0;2;s1", "2;0;1;0;3;s2"]:
+        ctx.violation("delivery-order-or-count", f"second run under a new event loop read {result2['reads']}", case)
+
+
 def client_publish_case(ctx, prefixes: tuple[str, str], lines: list[str]) -> None:
     """MQTTClient on the fake client: what reaches the client's publish() for each written line."""
     from aiomysensors.transport.mqtt import MQTTClient
@@ -1073,6 +1147,8 @@ def run_case(ctx, case: dict) -> None:
         arun(subscription_case(ctx, tuple(case["prefixes"])))
     elif kind == "fifo":
         arun(fifo_case(ctx, case["script"]))
+    elif kind == "multi-loop-client":
+        multi_loop_client_case(ctx, case["first_session"])
     elif kind == "client-script":
         script = [tuple(bytes.fromhex(x["__bytes__"]) if isinstance(x, dict) else x for x in op) if isinstance(op, list) else op
                   for op in case["script"]]
@@ -1187,6 +1263,9 @@ def run(ctx) -> None:
         for i, delay in enumerate((1.0, 5.0, 9.0, 10.0, 11.0, 30.0, 60.0, 301.0)):
             if ctx.mine(i):
                 hung_broker_disconnect_case(ctx, delay)
+        for i, first_session in enumerate(("clean", "publish-only")):
+            if ctx.mine(i + 4):
+                multi_loop_client_case(ctx, first_session)
         for i, (with_disconnect, pending) in enumerate(((False, False), (True, False))):
             if ctx.mine(i):
                 reconnect_after_error_case(ctx, with_disconnect, pending)
